@@ -29,6 +29,10 @@ pub enum Edit {
     CloneThenTrack,
     /// a custom operation without a derivative (a metric) is applied to the leaves first
     MetricFirst,
+    /// two passes; the caller holds a clone of the gradient fetched after the first one
+    HoldGradient,
+    /// the leaf is frozen through a clone (`a.clone().untracked()`) after the first of two passes
+    FreezeClone,
 }
 
 fn reference(ra: &T, rb: &T) -> T {
@@ -49,7 +53,7 @@ pub fn edit<S: Source>(s: &mut S, e: Edit) {
     let (a, b) = (&bl.arrays[0], &bl.arrays[1]);
     let rref = reference(&bl.refs[0], &bl.refs[1]);
     let root: Array = match e {
-        Edit::None => {
+        Edit::None | Edit::HoldGradient | Edit::FreezeClone => {
             let p = a * b;
             let q = &p + a;
             let r = &q * b;
@@ -123,10 +127,30 @@ pub fn edit<S: Source>(s: &mut S, e: Edit) {
         let rc = root.clone();
         rc.backward(arg);
         drop(rc);
+        check_gradients(&bl, &leaves, &rref, &seedv, 1.0, false);
+    } else if e == Edit::HoldGradient || e == Edit::FreezeClone {
+        root.backward(arg);
+        check_gradients(&bl, &leaves, &rref, &seedv, 1.0, false);
+        // something the caller does between two passes that must not matter
+        let held: Option<Array> = if e == Edit::HoldGradient {
+            Some(a.gradient().as_ref().unwrap().clone())
+        } else {
+            let frozen = a.clone().untracked();
+            chk!(a.gradient().is_some(), "[c12:clone-visibility] un-tracking a clone removed the original's gradient");
+            Some(frozen)
+        };
+        let (arg2, seed2) = draw_seed(s, &root, Seed::Explicit(Dom::D4));
+        root.backward(arg2);
+        let mut total = seedv.clone();
+        for j in 0..total.len() {
+            total[j] += seed2[j];
+        }
+        check_gradients(&bl, &leaves, &rref, &total, 1.0, false);
+        forget(held);
     } else {
         root.backward(arg);
+        check_gradients(&bl, &leaves, &rref, &seedv, 1.0, false);
     }
-    check_gradients(&bl, &leaves, &rref, &seedv, 1.0, false);
     // visible through any other clone too
     let a3 = a.clone();
     let g = a3.gradient();
